@@ -32,8 +32,9 @@ func init() {
 		Run:     run,
 		Rule: "cases: all trees with up to 4 nodes over the kind alphabet {nil, bool, int64, float64, string, time.Time, json.Number, []any, map[string]any} (every kind x container shape), generated trees with nested empty containers and nil members, and number/escape-heavy JSON texts; " +
 			"Generify->Simplify, GenAlter->Alter, Dup, Decompose (null-keeping options), Node.Dup must preserve the value, also when the data sits in typed Go containers ([]map[string]any, [][]any, []int64, []string, map[string]T) reached by reflection; oj/sen/pretty writers must give identical text for a gen tree and its simple twin; gen.Parser output must equal Generify(oj.Parser output); " +
-			"the copying operations must share no map or slice with their input (pointer walk) and mutating every container of either side must not change the other (mutate-after-copy, both directions). non-trivial: a tree with at least one container; distinct: enumerated trees by construction, others by digest",
+			"the copying operations must share no map or slice with their input (pointer walk) and mutating every container of either side must not change the other (mutate-after-copy, both directions). the writer twins cover colour, tab, omit options, narrow widths and alignment (21 writer/option pairs). non-trivial: a tree with at least one container; distinct: enumerated trees by construction, others by digest",
 		Assumptions: []string{
+			"sen's colour writer ends values it decomposes first with NoColor twice (F-C18-sencolor)",
 			"the in-place variants Alter and GenAlter are documented to reuse their input and are exempt from the alias check",
 			"time.Time is compared by instant under TimeFormat \"time\"; big numbers by text",
 			"zero-capacity slices are exempt from the pointer walk (nothing can be written through them)",
